@@ -772,6 +772,28 @@ def report_mismatches(ctx, name, batch, chunk=12):
 
 
 # ----------------------------------------------------------------------------- larger circuits: scan of the lowest-energy states
+def gen_shared_machine_case(rng, share=None, max_q=10):
+    """Three jobs of 1, 2 and 3 operations (in random job order) that all visit one common machine at a random position of the
+    job, durations 1..3, slack 0..3: at least three operations on one machine whose start windows differ in width and offset
+    (a single-operation job's window spans the whole horizon, the longest job's windows are tight).  Small enough for 2^n."""
+    while True:
+        ms = ["m0", "m1", "m2"]
+        common = rng.choice(ms)
+        others = [m for m in ms if m != common]
+        jobs = []
+        sizes = [1, 2, 3]
+        rng.shuffle(sizes)
+        for j, k in enumerate(sizes):
+            machines = [common] + rng.sample(others, k - 1)
+            rng.shuffle(machines)
+            jobs.append({"name": f"j{j}", "ops": [{"name": f"o{x}", "job": f"j{j}", "machine": m, "dur": rng.randint(1, 3)} for x, m in enumerate(machines)]})
+        inst = {"name": "inst", "machines": ms, "jobs": jobs}
+        L = longest(inst) + rng.choice([0, 0, 1, 1, 2, 3])
+        if 3 <= expected_qubits(inst, L) <= max_q:
+            P, kind = gen_penalties(rng, share=share)
+            return {"inst": inst, "L": L, "P": P, "shape": "three-on-one-machine", "penalties": kind}
+
+
 def gen_contended_case(rng, share=None, min_q=11, max_q=16):
     """Instances whose variables have several qubits and many pair terms per start time: 2-4 single-operation jobs on one
     machine (plus sometimes a second operation elsewhere) with slack 2..5.  These are the states where the negative
